@@ -196,20 +196,17 @@ Proof. intros H. rewrite <- (firstn_skipn k ops) in H. now apply run_ops_app. Qe
 Lemma mirror_correct md ck ops mx cf e2 :
   run_ops ck ops = Ok (cf, e2) ->
   run_bounded mx ck ops ->
-  ~ known_class md ck ->
   mirror_task (sub_mirror md ck mx) (sub_stream md ck e2) = HOk (mirror_of cf true mx).
 Proof.
-  intros Hr Hb Hk. unfold mirror_task, sub_stream, sub_mirror.
+  intros Hr Hb. unfold mirror_task, sub_stream, sub_mirror. rewrite andb_false_r.
   destruct (cdone ck) eqn:Hd.
   - (* subscribed after done *)
     destruct (run_done_state _ _ _ _ Hd Hr) as [-> ->].
     destruct md.
     + cbn [app task_gen handle_event]. prj. unfold mirror_of. now rewrite Hd.
-    + assert (Hi : items ck = []).
-      { destruct (items ck) eqn:Hi; [reflexivity|]. exfalso. apply Hk. unfold known_class.
-        rewrite Hi. repeat split; congruence. }
-      rewrite Hi. cbn [map app task_gen handle_event]. prj. cbn [andb].
-      unfold mirror_of. now rewrite Hd, Hi.
+    + rewrite <- app_assoc.
+      rewrite (task_pushes true (items ck) [] false mx) by (cbn [app]; now apply run_bounded_head in Hb).
+      cbn [app task_gen handle_event]. prj. cbn [andb]. unfold mirror_of. now rewrite Hd.
   - destruct md.
     + cbn [app].
       pose proof (run_task true ops ck cf e2 true mx [] Hr (or_intror Hd) Hb) as HT.
@@ -260,13 +257,12 @@ Lemma mirror_equals_collection init ops k cf e :
     run_ops ck (skipn k ops) = Ok (cf, e2) /\ e = e1 ++ e2 /\
     forall md mx,
       run_bounded mx ck (skipn k ops) ->
-      (~ known_class md ck ->
-       mirror_task (sub_mirror md ck mx) (sub_stream md ck e2) = HOk (mirror_of cf true mx)) /\
+      mirror_task (sub_mirror md ck mx) (sub_stream md ck e2) = HOk (mirror_of cf true mx) /\
       fold_events (hand_start md ck mx) (sub_stream md ck e2) = HOk (mirror_of cf true mx).
 Proof.
   intros H. destruct (run_split _ _ k _ _ H) as (ck & e1 & e2 & H1 & H2 & He).
   exists ck, e1, e2. repeat split; try assumption.
-  - intros Hk. now apply (mirror_correct md ck (skipn k ops)).
+  - now apply (mirror_correct md ck (skipn k ops)).
   - now apply (hand_correct md ck (skipn k ops)).
 Qed.
 
@@ -302,21 +298,6 @@ Lemma done_iff_called init ops cf e :
   run_ops (start init) ops = Ok (cf, e) -> (cdone cf = true <-> In MarkDone ops).
 Proof.
   intros H. rewrite (done_iff ops _ _ _ H). cbn. intuition discriminate.
-Qed.
-
-(** the known class is a real divergence of the pinned mirror task *)
-Lemma known_class_diverges :
-  exists init ops k mx ck e1 e2 cf,
-    run_ops (start init) (firstn k ops) = Ok (ck, e1) /\
-    run_ops ck (skipn k ops) = Ok (cf, e2) /\ run_bounded mx ck (skipn k ops) /\
-    known_class Incremental ck /\
-    mirror_task (sub_mirror Incremental ck mx) (sub_stream Incremental ck e2) =
-      HOk {| mv := [7]; mcomplete := false; mdone := true; mmax := mx |} /\
-    items cf = [7; 8].
-Proof.
-  exists [7; 8], [MarkDone], 1%nat, 10, {| items := [7; 8]; cdone := true |}, [EDone], [],
-         {| items := [7; 8]; cdone := true |}.
-  repeat split; vm_compute; congruence.
 Qed.
 
 (** ** tie to the generated facts *)
